@@ -13,7 +13,7 @@ ROOT = os.path.dirname(os.path.dirname(os.path.abspath(__file__)))
 REPO = os.environ.get('VERIF_REPO', '/repo')
 BUILD = os.path.join(ROOT, 'build')
 COQ = os.path.join(ROOT, 'coq')
-NPROC = os.cpu_count() or 4
+NPROC = int(os.environ.get('VERIF_JOBS', os.cpu_count() or 4))
 GUARD = 'GEMMI_VERIF'
 
 SAN_FLAGS = ['-O1', '-g', '-fsanitize=address,undefined',
